@@ -649,7 +649,9 @@ class VizierServicer(vizier_service_pb2_grpc.VizierServiceServicer):
       )
       grpc_util.handle_exception(e, context)
 
-    self.datastore.delete_trial(request.name)
+    # Other RPCs read-modify-write the trial under this lock.
+    with self._study_name_to_lock[study_name]:
+      self.datastore.delete_trial(request.name)
     return empty_pb2.Empty()
 
   # TODO: This currently uses the same algorithm as suggestion.
